@@ -57,8 +57,12 @@ def run(ctx: Ctx):
         sl, root = mask_root(env, family)
         ctx.fn(sl.fi)
         check_literals(ctx, "C05", env, sl, root, T.MASK[cname], "mask", "tighter")
-        if cname != "MDCPDPEnv":  # its slice-wise in-place refinements have no syntactic column partition (DESIGN App. C2)
+        if cname != "MDCPDPEnv":
             extra_rules(ctx, env, sl, root, T.MASK[cname], T.BOOL_CELLS)
+        else:
+            # slice-wise in-place refinements: decided per column class by truth table (shared with C01.p)
+            from .C01 import mdcpdp_mask_classes
+            mdcpdp_mask_classes(ctx, env, "tighter")
     old = T.BOOL_CELLS
     try:
         T.BOOL_CELLS = TS.BOOL_CELLS
